@@ -53,6 +53,8 @@ fn run(name: String, n: usize) -> String {
 fn main() {
     let a: Vec<String> = std::env::args().collect();
     let (name, n) = (a[1].clone(), a[2].parse::<usize>().unwrap());
-    let h = std::thread::Builder::new().stack_size(8 * 1024 * 1024).spawn(move || run(name, n)).unwrap();
+    // optional third argument: stack size in KiB (default 8 MiB, the usual main-thread stack)
+    let kib = a.get(3).and_then(|x| x.parse::<usize>().ok()).unwrap_or(8 * 1024);
+    let h = std::thread::Builder::new().stack_size(kib * 1024).spawn(move || run(name, n)).unwrap();
     println!("{}", h.join().unwrap());
 }
